@@ -50,34 +50,36 @@ def strip_comments(src: str) -> str:
     return "".join(out)
 
 
-def hygiene():
-    """No Admitted/Axiom/... anywhere in the development (comments ignored). Returns list of hits."""
+def _all_vfiles():
+    out = []
+    for sub in ("theories", "gen", "props"):
+        d = os.path.join(COQ, sub)
+        if os.path.isdir(d):
+            out += [f"{sub}/{fn}" for fn in sorted(os.listdir(d)) if fn.endswith(".v")]
+    return out
+
+
+def hygiene(files=None):
+    """No Admitted/Axiom/... in the given files of the development (default: all; comments ignored).
+    A property check scans the dependency cone of its props file; setup.sh scans everything."""
     hits = []
-    for sub in ("theories", "gen", "props"):
-        d = os.path.join(COQ, sub)
-        for fn in sorted(os.listdir(d)):
-            if fn.endswith(".v"):
-                src = strip_comments(open(os.path.join(d, fn)).read())
-                # string literals may legitimately contain the words; drop them too
-                src = re.sub(r'"(?:[^"]|"")*"', '""', src)
-                for m in FORBIDDEN.finditer(src):
-                    hits.append(f"{sub}/{fn}: {m.group(0)}")
-    # section variables are fine; Variable/Hypothesis outside a section would be an axiom
-    for sub in ("theories", "gen", "props"):
-        d = os.path.join(COQ, sub)
-        for fn in sorted(os.listdir(d)):
-            if not fn.endswith(".v"):
-                continue
-            src = strip_comments(open(os.path.join(d, fn)).read())
-            depth = 0
-            for line in src.splitlines():
-                s = line.strip()
-                if re.match(r"Section\s+\w+\s*\.", s):
-                    depth += 1
-                elif re.match(r"End\s+\w+\s*\.", s) and depth:
-                    depth -= 1
-                elif depth == 0 and re.match(r"(Variable|Variables|Hypothesis|Hypotheses|Context)\b", s):
-                    hits.append(f"{sub}/{fn}: {s.split()[0]} outside a section")
+    files = list(files) if files else _all_vfiles()
+    for rel in files:
+        src = strip_comments(open(os.path.join(COQ, rel)).read())
+        # string literals may legitimately contain the words; drop them too
+        nostr = re.sub(r'"(?:[^"]|"")*"', '""', src)
+        for m in FORBIDDEN.finditer(nostr):
+            hits.append(f"{rel}: {m.group(0)}")
+        # section variables are fine; Variable/Hypothesis outside a section would be an axiom
+        depth = 0
+        for line in src.splitlines():
+            s = line.strip()
+            if re.match(r"Section\s+\w+\s*\.", s):
+                depth += 1
+            elif re.match(r"End\s+\w+\s*\.", s) and depth:
+                depth -= 1
+            elif depth == 0 and re.match(r"(Variable|Variables|Hypothesis|Hypotheses|Context)\b", s):
+                hits.append(f"{rel}: {s.split()[0]} outside a section")
     return hits
 
 
